@@ -1496,7 +1496,7 @@ func c10Addr(i int) common.Address { return common.BytesToAddress([]byte{0xc0, 0
 func c10GenCase(r *c10Rand, o *c10Out) *c10Case {
 	c := &c10Case{
 		v2:       r.Chance(1, 2),
-		gas:      uint64([]int{1000000, 300000, 3000000, 60000}[r.Pick(6, 2, 1, 1)]),
+		gas:      uint64([]int{400000, 150000, 2000000, 60000}[r.Pick(6, 2, 1, 1)]),
 		value:    big.NewInt(0),
 		origin:   common.BytesToAddress([]byte{0xaa, 0xaa, 0x01}),
 		target:   c10Addr(0),
